@@ -57,6 +57,11 @@ for it in range(N):
     t = T(data, now, {"selected": list(names)}); A.WeighRandomly(bounds=(lo, hi), weight_sum=tot)(t); w = pd.Series(t.temp["weights"], dtype=float); evals += 1
     if len(w) and ((w < lo - 1e-12).any() or (w > hi + 1e-12).any() or abs(w.sum() - tot) > 1e-9): bad("random-weights-in-bounds-with-sum", weights=list(map(float, w.values)), hi=hi)
     if hi * n_assets < tot and len(w): bad("random-weights-infeasible-bounds-should-give-nothing")
+    # one selected name: the same rule - inside the bounds with the requested sum, or nothing when the bounds exclude it
+    for (lo1, hi1, tot1) in ((0.0, 0.4, 1.0), (0.0, 1.0, 1.0), (0.5, 1.0, 0.8)):
+        t = T(data, now, {"selected": [names[0]]}); A.WeighRandomly(bounds=(lo1, hi1), weight_sum=tot1)(t); w1 = dict(t.temp["weights"]); evals += 1
+        feasible = lo1 - 1e-12 <= tot1 <= hi1 + 1e-12
+        if (feasible and (list(w1) != [names[0]] or abs(float(w1[names[0]]) - tot1) > 1e-9)) or (not feasible and w1): bad("random-weights-in-bounds-with-sum", single_name=True, bounds=[lo1, hi1], weight_sum=tot1, weights={k: float(v) for k, v in w1.items()})
     # limit weights: cap respected, total preserved, nothing when infeasible
     base = rs.dirichlet(np.ones(n_assets)); cap = float(rs.uniform(0.15, 0.9))
     t = T(data, now, {"weights": dict(zip(names, map(float, base)))}); A.LimitWeights(cap)(t); w = pd.Series(t.temp["weights"], dtype=float); evals += 1
@@ -70,9 +75,16 @@ for it in range(N):
         new = t.temp["weights"].get(k, 0.0); d0 = tgtw.get(k, 0.0) - cur[k]
         if abs(new - cur[k]) > lim + 1e-12 and abs(d0) > lim: bad("limit-deltas-cap", key=k, new=new, cur=cur[k], limit=lim)
         if abs(d0) <= lim and abs(new - tgtw.get(k, 0.0)) > 1e-12: bad("limit-deltas-untouched-within", key=k)
+    # dated targets with a missing entry on the date: the weights are that date's non-missing targets (not an earlier complete row)
+    wt_ = pd.DataFrame(rs.dirichlet(np.ones(n_assets), size=n), index=idx, columns=names); wt_.loc[now, names[0]] = np.nan
+    t = T(data, now, {}); t._extra = {"wt": wt_}; A.WeighTarget("wt")(t); evals += 1
+    want_wt = {k: float(v) for k, v in wt_.loc[now].dropna().items()}
+    got_wt = {k: float(v) for k, v in dict(t.temp.get("weights", {})).items()}
+    if set(got_wt) != set(want_wt) or any(abs(got_wt[k] - want_wt[k]) > 1e-12 for k in want_wt): bad("dated-targets-are-the-non-missing-targets-of-the-date", got=got_wt, want=want_wt)
     # volatility target: ex-ante annualised volatility of the scaled weights equals the target
     w0 = dict(zip(names, map(float, rs.dirichlet(np.ones(n_assets))))); tv = float(rs.uniform(0.05, 0.3))
-    t = T(data, now, {"weights": dict(w0)}); A.TargetVol(tv, lookback=lb)(t); w = pd.Series(t.temp["weights"])[names]; evals += 1
+    w0_shuffled = {k: w0[k] for k in [names[j] for j in rs.permutation(n_assets)]}        # the weights need not list the tickers in the order of the price columns
+    t = T(data, now, {"weights": w0_shuffled}); A.TargetVol(tv, lookback=lb)(t); w = pd.Series(t.temp["weights"])[names]; evals += 1
     cv = bt.ffn.to_returns(data.loc[now - lb: now]).cov().values
     vol = float(np.sqrt(w.values @ cv @ w.values * 252))
     if abs(vol - tv) > 1e-9: bad("target-vol", got=vol, want=tv)
